@@ -40,6 +40,8 @@ def gen_gdb_traffic(rng, seed, nslots, n, p_destroy=0.08, threads=3, p_foreign_t
             if rng.random() < p_foreign_thread:
                 th = rng.randint(1, threads)
             intents.append(['act', s, kind, rng.randrange(1 << 30), rng.randrange(1 << 30), rng.randrange(1 << 30), th])
+            if th >= 2 and rng.random() < 0.5:
+                intents.append(['thread_exit', th])      # the helper thread that handled this message is gone afterwards
         if rng.random() < 0.5:
             intents.append(['tick', L.gen_tick(rng)])
     return intents
